@@ -168,6 +168,16 @@ def decide(pid, tier, seed, args):
             gen(V, repo)
         except Unsupported as e:
             undecided.append((getattr(gen, "__name__", "generator"), "unsupported: %s" % e))
+        except (RecursionError, MemoryError):
+            raise
+        except Exception as e:
+            # as for functions: a generator that fails on code identical to the baseline is a checker bug, on changed
+            # code (e.g. a pattern rewritten with constructs the regular-language translation does not cover) the
+            # obligations it would have produced are undecided
+            if load_json(BASELINE, {}).get("_files") == repo.file_sha:
+                raise
+            undecided.append((getattr(gen, "__name__", "generator"),
+                              "outside the supported subset: %s: %s" % (type(e).__name__, e)))
     vcs = list(V.vcs)
     only = prop.get("only")
     if only:
@@ -188,7 +198,10 @@ def decide(pid, tier, seed, args):
     retry = [i for i, (vc, r) in enumerate(zip(vcs, results)) if r["verdict"] == "unknown"]
     if retry and len(retry) <= 40:
         for i in retry:
-            vcs[i].meta.update(q_fast=20, q_slow=450, z3_t=450, cvc5_t=450, z3_quick=10, z3_sliced=15)
+            if vcs[i].meta.get("false_goal"):
+                vcs[i].meta.update(q_fast=20, q_slow=60, z3_t=40, cvc5_t=40, z3_quick=10, z3_sliced=15)
+            else:
+                vcs[i].meta.update(q_fast=20, q_slow=450, z3_t=450, cvc5_t=450, z3_quick=10, z3_sliced=15)
         again = smt.solve_vcs([vcs[i] for i in retry], jobs=4)
         for i, r in zip(retry, again):
             if r["verdict"] in ("unsat", "sat"):
@@ -278,6 +291,17 @@ def run(pid, tier, seed, args, t0):
     conformance = run_standin("rt_conformance", pid, tier, seed)
     standin_fail = [(s["module"], f) for s in standins for f in s.get("failures", [])]
     standin_err = [s for s in standins if s.get("error")]
+    # A conformance failure tagged T-… concerns a TRUSTED contract on a function of the repository (not a library):
+    # the real code contradicts a contract this property's proof relies on, with a concrete input - a violation to
+    # report, not a checker error.  It counts for the properties whose functions use that contract.
+    T_USERS = {"T-juniper": ("juniper_secrets:", ":_anonymize_value"), "T-default-regexes": ("FileAnonymizer.__init__",)}
+    t_fail = [f for f in conformance.get("failures", []) if str(f.get("tag", "")).startswith("T-")]
+    conformance["failures"] = [f for f in conformance.get("failures", []) if f not in t_fail]
+    for f in t_fail:
+        users = T_USERS.get(f["tag"], ())
+        if any(u in k for u in users for k in prop.get("functions", [])):
+            standin_fail.append(("rt_conformance", {"tag": "trusted." + f["tag"], "input": f.get("input"),
+                                                    "detail": f.get("detail"), "obligation_hint": "trusted contract"}))
 
     failed = {n: o for n, o in obs.items() if o["status"] in ("refuted", "unknown")}
     disagree = [n for n, o in obs.items() if o["status"] == "disagree"]
